@@ -11,10 +11,13 @@
     * `C04_qd_to_f64_partial`: double(qd) = ((x0 + x1) + x2) + x3 is the nearest double when the two partial sums are doubles
       (single rounding); FALSE in general, even for normalised limbs: `C04_qd_to_f64_counterexample`
       (1, 2^-53, 2^-110, 0) reads 1, the nearest double is 1 + 2^-52.
-    * `C04_dd_to_int64_partial`: (long long)dd of a double (lo = 0) inside the int64 range is the truncation toward zero;
-      FALSE with a tail: `C04_dd_to_int64_counterexample` (62, −2^-51) reads 62, the value 61.999… truncates to 61.
+    * `C04_dd_to_int64`, `C04_dd_to_uint64` (after the repairs of convert_to_signed / convert_to_unsigned): integer reads of a
+      normalised dd return the represented value truncated toward zero, for every value that fits (unsigned: up to 2^64);
+      the former counterexample (62, −2^-51) now reads 61 (`C04_dd_to_int64_witnesses`);
+      `C04_qd_to_int64`, `C04_qd_to_uint64`: the same for a normalised qd (all four limbs; the first limb with a fraction decides).
 -/
 import UVerifProofs.Lemmas.ConvDD
+import UVerifProofs.Lemmas.ConvQDTrunc
 import UVerif.Model.ConvDD
 
 open UVerif UVerif.F64 UVerif.ConvDDLemmas
@@ -81,36 +84,142 @@ theorem C04_qd_to_f64_counterexample : ¬ C04_qd_to_f64_full := by
   revert this
   decide +kernel
 
-/-- `(long long)dd` for a dd that is a double inside the int64 range: truncation toward zero of the value -/
-theorem C04_dd_to_int64_partial (s : Bool) (n : Nat) (hn : n >>> binary64.q < 2 ^ 63) :
-    DD.toInt64 binary64 ⟨.fin s n, pzero⟩ = (if s then -((n >>> binary64.q : Nat) : Int) else ((n >>> binary64.q : Nat) : Int)) := by
-  have hz : toI64 binary64 pzero = 0 := by
-    unfold toI64 truncInt pzero
-    simp
-  unfold DD.toInt64
-  rw [hz, add_zero]
-  unfold toI64 truncInt
-  simp only
-  generalize n >>> binary64.q = k at hn ⊢
-  have hlt : (k : Int) < (2 ^ 63 : Int) := by exact_mod_cast hn
-  have hk0 : (0 : Int) ≤ (k : Int) := Int.natCast_nonneg k
-  cases s
-  · simp only [Bool.false_eq_true, if_false]
-    rw [if_pos ⟨by omega, hlt⟩]
-    exact wrapI64_small (by omega) hlt
-  · simp only [if_true]
-    rw [if_pos ⟨by omega, by omega⟩]
-    exact wrapI64_small (by omega) (by omega)
+/-- **`(long long)dd` is the represented value truncated toward zero** (after the repair of `convert_to_signed`): every finite
+    dd whose head is a float of the format and whose tail is at most half an ulp of the head (normalised),
+    `|hi + lo| < 2^63`; every format.  Integer heads with a fractional tail of the opposite sign — (62, −2^-51) ↦ 61 — are the
+    case the limb-wise truncation got wrong. -/
+theorem C04_dd_to_int64 (f : Fmt) (hp : 1 ≤ f.p) (a : DD.DD)
+    (hh : a.hi.Rep f) (hl : a.lo.isFinite = true) (norm : 2 * a.lo.mag ≤ ulpNat f.p a.hi.mag)
+    (hr : (a.hi.toInt + a.lo.toInt).natAbs < 2 ^ 63 * 2 ^ f.q) :
+    DD.toInt64 f a = Int.tdiv (a.hi.toInt + a.lo.toInt) ((2 ^ f.q : Nat) : Int) := by
+  obtain ⟨ah, al⟩ := a
+  cases ah with
+  | fin s n =>
+    cases al with
+    | fin t m =>
+      have hfl : IsFloatN f.p n := by have := hh.2; unfold IsFloat at this; rwa [F.toInt_fin_natAbs] at this
+      exact toInt64_trunc' f hp s t n m hfl norm hr
+    | inf t => simp [F.isFinite] at hl
+    | nan => simp [F.isFinite] at hl
+  | inf s => have := hh.1; simp [F.isFinite] at this
+  | nan => have := hh.1; simp [F.isFinite] at this
 
-/-- the full statement: truncation toward zero of hi + lo for every normalised dd in range -/
-def C04_dd_to_int64_full : Prop :=
-  ∀ a : DD.DD, a.hi.isFinite = true → a.lo.isFinite = true →
-    (a.hi.toInt + a.lo.toInt).natAbs < 2 ^ (63 + binary64.q) →
-    DD.toInt64 binary64 a = Int.tdiv (a.hi.toInt + a.lo.toInt) ((2 ^ binary64.q : Nat) : Int)
+/-- **`(unsigned long long)dd`** likewise, for `−1 < hi + lo < 2^64` (values in [2^63, 2^64) included since the repair of
+    `convert_to_unsigned`). -/
+theorem C04_dd_to_uint64 (f : Fmt) (hp : 1 ≤ f.p) (a : DD.DD)
+    (hh : a.hi.Rep f) (hl : a.lo.isFinite = true) (norm : 2 * a.lo.mag ≤ ulpNat f.p a.hi.mag)
+    (hlo : -((2 ^ f.q : Nat) : Int) < a.hi.toInt + a.lo.toInt)
+    (hhi : a.hi.toInt + a.lo.toInt < ((2 ^ 64 * 2 ^ f.q : Nat) : Int)) :
+    ((DD.toUInt64 f a : Nat) : Int) = Int.tdiv (a.hi.toInt + a.lo.toInt) ((2 ^ f.q : Nat) : Int) := by
+  obtain ⟨ah, al⟩ := a
+  cases ah with
+  | fin s n =>
+    cases al with
+    | fin t m =>
+      have hfl : IsFloatN f.p n := by have := hh.2; unfold IsFloat at this; rwa [F.toInt_fin_natAbs] at this
+      exact toUInt64_trunc' f hp s t n m hfl norm hlo hhi
+    | inf t => simp [F.isFinite] at hl
+    | nan => simp [F.isFinite] at hl
+  | inf s => have := hh.1; simp [F.isFinite] at this
+  | nan => have := hh.1; simp [F.isFinite] at this
 
-/-- FALSE: (62, −2^-51) is 61.999…: the limbs are truncated separately (62 + 0), the value truncates to 61 -/
-theorem C04_dd_to_int64_counterexample : ¬ C04_dd_to_int64_full := by
-  intro h
-  have := h ⟨ofBits64 0x404f000000000000, ofBits64 0xbcc0000000000000⟩ (by decide +kernel) (by decide +kernel) (by decide +kernel)
-  revert this
+set_option exponentiation.threshold 5000 in
+/-- the witnesses of the former findings `dd.to_int64.limbwise_truncation` and `dd.to_uint64.via_int64`, now positive:
+    (62, −2^-51) reads 61, (−62, 2^-51) reads −61; (0x43e2289706a809ff, 1024) — a value ≥ 2^63 — reads as itself -/
+theorem C04_dd_to_int64_witnesses :
+    DD.toInt64 binary64 ⟨ofBits64 0x404f000000000000, ofBits64 0xbcc0000000000000⟩ = 61 ∧
+    DD.toInt64 binary64 ⟨ofBits64 0xc04f000000000000, ofBits64 0x3cc0000000000000⟩ = -61 ∧
+    DD.toUInt64 binary64 ⟨ofBits64 0x43e2289706a809ff, ofBits64 0x4090000000000000⟩ = 0x9144b835404ffc00 := by
+  decide +kernel
+
+-- non-vacuity: the first witness satisfies every hypothesis of `C04_dd_to_int64`
+set_option exponentiation.threshold 5000 in
+example :
+    let a : DD.DD := ⟨ofBits64 0x404f000000000000, ofBits64 0xbcc0000000000000⟩
+    a.lo.isFinite = true ∧ 2 * a.lo.mag ≤ ulpNat binary64.p a.hi.mag ∧
+    (a.hi.toInt + a.lo.toInt).natAbs < 2 ^ 63 * 2 ^ binary64.q := by
+  decide +kernel
+
+/-! ### qd integer reads -/
+
+/-- `(long long)qd` of a qd whose two lower limbs are (signed) zeros is `(long long)dd` of the two leading limbs — hence, by
+    `C04_dd_to_int64`, the represented value truncated toward zero when those are normalised and the value fits. -/
+theorem C04_qd_to_int64_two_limbs (a : DD.DD) (z2 z3 : Bool)
+    (hh : a.hi.Rep binary64) (hl : a.lo.isFinite = true) (norm : 2 * a.lo.mag ≤ ulpNat binary64.p a.hi.mag)
+    (hr : (a.hi.toInt + a.lo.toInt).natAbs < 2 ^ 63 * 2 ^ binary64.q) :
+    ConvDD.qdToInt 64 true (a.hi, a.lo, .fin z2 0, .fin z3 0)
+      = ofSigned 64 (Int.tdiv (a.hi.toInt + a.lo.toInt) ((2 ^ binary64.q : Nat) : Int)) := by
+  rw [← C04_dd_to_int64 binary64 (by decide) a hh hl norm hr]
+  obtain ⟨ah, al⟩ := a
+  cases ah with
+  | fin s n =>
+    cases al with
+    | fin t m => exact qdToInt_two_limbs s t z2 z3 n m
+    | inf t => simp [F.isFinite] at hl
+    | nan => simp [F.isFinite] at hl
+  | inf s => have := hh.1; simp [F.isFinite] at this
+  | nan => have := hh.1; simp [F.isFinite] at this
+
+set_option exponentiation.threshold 2000 in
+/-- **`(long long)qd` is the represented value truncated toward zero** (after the repair of `qd::convert_to_signed`): every
+    finite binary64 quad-double whose limbs are each at most half an ulp of the previous one (normalised) and whose value fits,
+    `|x0 + x1 + x2 + x3| < 2^63`.  The loop sums the integer parts of the limbs and lets the FIRST limb with a fraction decide the
+    ±1 correction; the integer core (`QdCore.core`, any unit) shows that this is `tdiv` of the sum. -/
+theorem C04_qd_to_int64 (a : ConvDD.QD)
+    (h0 : a.1.Rep binary64) (h1 : a.2.1.Rep binary64) (h2 : a.2.2.1.Rep binary64) (h3 : a.2.2.2.isFinite = true)
+    (N1 : 2 * a.2.1.mag ≤ ulpNat binary64.p a.1.mag) (N2 : 2 * a.2.2.1.mag ≤ ulpNat binary64.p a.2.1.mag)
+    (N3 : 2 * a.2.2.2.mag ≤ ulpNat binary64.p a.2.2.1.mag)
+    (hr : (a.1.toInt + a.2.1.toInt + a.2.2.1.toInt + a.2.2.2.toInt).natAbs < 2 ^ 63 * 2 ^ binary64.q) :
+    ConvDD.qdToInt 64 true a
+      = ofSigned 64 (Int.tdiv (a.1.toInt + a.2.1.toInt + a.2.2.1.toInt + a.2.2.2.toInt) ((2 ^ binary64.q : Nat) : Int)) := by
+  obtain ⟨x0, x1, x2, x3⟩ := a
+  have fin_of : ∀ x : F, x.isFinite = true → ∃ s n, x = .fin s n := by
+    intro x hx; cases x with
+    | fin s n => exact ⟨s, n, rfl⟩
+    | inf s => simp [F.isFinite] at hx
+    | nan => simp [F.isFinite] at hx
+  obtain ⟨s0, n0, rfl⟩ := fin_of x0 h0.1
+  obtain ⟨s1, n1, rfl⟩ := fin_of x1 h1.1
+  obtain ⟨s2, n2, rfl⟩ := fin_of x2 h2.1
+  obtain ⟨s3, n3, rfl⟩ := fin_of x3 h3
+  have fl : ∀ (s : Bool) (n : Nat), (F.fin s n).Rep binary64 → IsFloatN binary64.p n := by
+    intro s n h; have := h.2; unfold IsFloat at this; rwa [F.toInt_fin_natAbs] at this
+  have key := QdBridge.qdToInt_trunc s0 s1 s2 s3 n0 n1 n2 n3 (fl _ _ h0) (fl _ _ h1) (fl _ _ h2) N1 N2 N3 hr
+  unfold QdBridge.UZ at key
+  exact key
+
+set_option exponentiation.threshold 2000 in
+/-- **`(unsigned long long)qd`** likewise, for `−1 < x0 + x1 + x2 + x3 < 2^64` (values in [2^63, 2^64) included since the repair of
+    `qd::convert_to_unsigned`). -/
+theorem C04_qd_to_uint64 (a : ConvDD.QD)
+    (h0 : a.1.Rep binary64) (h1 : a.2.1.Rep binary64) (h2 : a.2.2.1.Rep binary64) (h3 : a.2.2.2.isFinite = true)
+    (N1 : 2 * a.2.1.mag ≤ ulpNat binary64.p a.1.mag) (N2 : 2 * a.2.2.1.mag ≤ ulpNat binary64.p a.2.1.mag)
+    (N3 : 2 * a.2.2.2.mag ≤ ulpNat binary64.p a.2.2.1.mag)
+    (hlo : -((2 ^ binary64.q : Nat) : Int) < a.1.toInt + a.2.1.toInt + a.2.2.1.toInt + a.2.2.2.toInt)
+    (hhi : a.1.toInt + a.2.1.toInt + a.2.2.1.toInt + a.2.2.2.toInt < ((2 ^ 64 * 2 ^ binary64.q : Nat) : Int)) :
+    ((ConvDD.qdToInt 64 false a : Nat) : Int)
+      = Int.tdiv (a.1.toInt + a.2.1.toInt + a.2.2.1.toInt + a.2.2.2.toInt) ((2 ^ binary64.q : Nat) : Int) := by
+  obtain ⟨x0, x1, x2, x3⟩ := a
+  have fin_of : ∀ x : F, x.isFinite = true → ∃ s n, x = .fin s n := by
+    intro x hx; cases x with
+    | fin s n => exact ⟨s, n, rfl⟩
+    | inf s => simp [F.isFinite] at hx
+    | nan => simp [F.isFinite] at hx
+  obtain ⟨s0, n0, rfl⟩ := fin_of x0 h0.1
+  obtain ⟨s1, n1, rfl⟩ := fin_of x1 h1.1
+  obtain ⟨s2, n2, rfl⟩ := fin_of x2 h2.1
+  obtain ⟨s3, n3, rfl⟩ := fin_of x3 h3
+  have fl : ∀ (s : Bool) (n : Nat), (F.fin s n).Rep binary64 → IsFloatN binary64.p n := by
+    intro s n h; have := h.2; unfold IsFloat at this; rwa [F.toInt_fin_natAbs] at this
+  have key := QdBridge.qdToUInt_trunc s0 s1 s2 s3 n0 n1 n2 n3 (fl _ _ h0) (fl _ _ h1) (fl _ _ h2) N1 N2 N3
+    (by unfold QdBridge.UZ; exact hlo) hhi
+  unfold QdBridge.UZ at key
+  exact key
+
+set_option exponentiation.threshold 5000 in
+/-- the witness of the former finding `qd.to_int64.limbwise_truncation`, now positive, and a third-limb case:
+    (2^52 + 2^31, −0.44…, 0, 0) reads 2^52 + 2^31 − 1;  (5, 0, −2^-80, 0) reads 4 -/
+theorem C04_qd_to_int64_witnesses :
+    ConvDD.qdToInt 64 true (ofBits64 0x4330000800000000, ofBits64 0xbfdc620000000000, pzero, pzero) = 0x00100007ffffffff ∧
+    ConvDD.qdToInt 64 true (ofBits64 0x4014000000000000, pzero, ofBits64 0xbaf0000000000000, pzero) = 4 := by
   decide +kernel
